@@ -114,12 +114,15 @@ def write_trace_files(dirpath: str, files: Dict[str, Any]) -> Dict[int, str]:
     out: Dict[int, str] = {}
     for i, (fname, tr) in enumerate(files.items()):
         p = os.path.join(dirpath, fname)
+        # Kineto writes names as raw UTF-8; Python's json default escapes them.  Both forms occur: every other file (by name and
+        # size, deterministic) is written with the characters themselves.
+        raw_utf8 = (len(fname) + (len(tr.get("traceEvents", [])) if isinstance(tr, dict) else 0) + i) % 2 == 0
         if fname.endswith(".gz"):
-            with gzip.open(p, "wt") as fh:
-                json.dump(tr, fh)
+            with gzip.open(p, "wt", encoding="utf-8") as fh:
+                json.dump(tr, fh, ensure_ascii=not raw_utf8)
         else:
-            with open(p, "w") as fh:
-                json.dump(tr, fh)
+            with open(p, "w", encoding="utf-8") as fh:
+                json.dump(tr, fh, ensure_ascii=not raw_utf8)
         r = tr.get("distributedInfo", {}).get("rank", i) if isinstance(tr, dict) else i
         out[int(r)] = p
     return out
